@@ -601,5 +601,6 @@ func sliceVisit(p *Program, v ssa.Value, local bool, visit func(ssa.Value)) {
 	q := newDepQuery(p, func(x ssa.Value) bool { visit(x); return false })
 	q.exploreAll = true
 	q.noParams = local
+	q.budget = 200000
 	q.depends(v, 0)
 }
